@@ -90,7 +90,10 @@ def key_text(scope, sel, arg):
 
 
 def add_binding(b, scope, sel, arg, val, layout_rng=None):
-  text = key_text(scope, sel, arg) + ' = ' + raw_literal(val)
+  eq = ' = '
+  if layout_rng is not None and layout_rng.random() < 0.15:
+    eq = ' = \\\n' + ' ' * layout_rng.choice([0, 2, 4])    # the value on a continuation line
+  text = key_text(scope, sel, arg) + eq + raw_literal(val)
   if layout_rng is not None and layout_rng.random() < 0.2:
     b.lines.append(layout_rng.choice(['', '# a comment', '   # indented comment']))
   if not arg and '/' in sel:   # macro `a/b = v`: the parser reads scope 'a', name 'b'
@@ -99,12 +102,16 @@ def add_binding(b, scope, sel, arg, val, layout_rng=None):
   b.add(text, {'k': 'bind', 'scope': scope, 'sel': sel, 'arg': arg, 'val': val})
 
 
-def add_block(b, scope, sel, members):
-  """members: list of (arg, val)."""
+def add_block(b, scope, sel, members, layout_rng=None):
+  """members: list of (arg, val). With `layout_rng` some members are written over two lines (`name = \\`, the value
+  on the next line): a statement begins on its first line."""
   header = key_text(scope, sel, '') + ':'
   b.add(header, {'k': 'block', 'scope': scope, 'sel': sel})
   for arg, val in members:
-    b.add('  ' + arg + ' = ' + raw_literal(val), {'k': 'bind', 'scope': scope, 'sel': sel, 'arg': arg, 'val': val})
+    eq = ' = '
+    if layout_rng is not None and layout_rng.random() < 0.3:
+      eq = ' = \\\n' + ' ' * layout_rng.choice([2, 4, 6])
+    b.add('  ' + arg + eq + raw_literal(val), {'k': 'bind', 'scope': scope, 'sel': sel, 'arg': arg, 'val': val})
 
 
 def strip_private(x):
